@@ -91,7 +91,7 @@ func c04(e *Env) {
 
 func recvName(fn *ssa.Function) string {
 	if len(fn.Params) > 0 {
-		return fn.Params[0].Name()
+		return core.ParamName(fn.Params[0])
 	}
 	return "?"
 }
@@ -176,7 +176,7 @@ func (e *Env) c04CloseConnection(typ string) {
 		held := li.held(li.must[n])
 		ok := false
 		for _, h := range held {
-			if strings.HasSuffix(h, ".closeLock") && strings.Contains(h, "$"+rn) {
+			if strings.Contains(h, "$"+rn+".") { // a mutex field of the port itself, whatever it is called
 				ok = true
 			}
 		}
